@@ -19,6 +19,8 @@ use crate::{flavour, Args, DEFAULT_SEED};
 
 const VERIF_DIR: &str = "/verif";
 const HANG_SECS: u64 = 60;
+/// a single op list executed alone in its own process normally takes well under two seconds
+const EXEC_HANG_SECS: u64 = 30;
 
 fn verif_dir() -> PathBuf {
     PathBuf::from(std::env::var("LSIM_VERIF_DIR").unwrap_or_else(|_| VERIF_DIR.to_string()))
@@ -282,6 +284,8 @@ pub fn cmd_worker(args: &Args) -> i32 {
 
 struct Abort {
     run: u64,
+    /// the orchestrator killed the worker because it had been silent for HANG_SECS inside a run
+    hang: bool,
     what: String,
     stderr: String,
 }
@@ -308,6 +312,7 @@ struct WorkerProc {
     stderr_path: PathBuf,
     done: bool,
     start: u64,
+    killed_for_hang: bool,
 }
 
 fn spawn_worker(exe: &Path, prop: &str, scenario: &str, seed: u64, start: u64, step: u64, total: u64, deadline_s: u64, idx: usize, tx: &std::sync::mpsc::Sender<Msg>) -> WorkerProc {
@@ -341,7 +346,7 @@ fn spawn_worker(exe: &Path, prop: &str, scenario: &str, seed: u64, start: u64, s
         }
         let _ = tx.send(Msg::Eof(idx));
     });
-    WorkerProc { child, current: None, last_done: None, last_activity: Instant::now(), stderr_path, done: false, start }
+    WorkerProc { child, current: None, last_done: None, last_activity: Instant::now(), stderr_path, done: false, start, killed_for_hang: false }
 }
 
 fn run_batch(exe: &Path, prop: &str, scenario: &str, seed: u64, start0: u64, step0: u64, total: u64, jobs: usize, deadline_s: u64) -> Batch {
@@ -405,9 +410,10 @@ fn run_batch(exe: &Path, prop: &str, scenario: &str, seed: u64, start0: u64, ste
                 }
                 match procs[i].current {
                     Some(run) => {
-                        b.aborts.push(Abort { run, what, stderr: tail(&stderr, 1500) });
+                        b.aborts.push(Abort { run, hang: procs[i].killed_for_hang, what, stderr: tail(&stderr, 1500) });
                         let next = run + step;
-                        if next < total && b.aborts.len() < 50 {
+                        // a handful of dead workers is evidence enough; do not keep feeding a tree that aborts or hangs
+                        if next < total && b.aborts.len() < 8 {
                             procs[i] = spawn_worker(exe, prop, scenario, seed, next, step, total, deadline_s, i, &tx);
                         } else {
                             live -= 1;
@@ -423,6 +429,7 @@ fn run_batch(exe: &Path, prop: &str, scenario: &str, seed: u64, start0: u64, ste
                 for p in procs.iter_mut() {
                     if p.current.is_some() && !p.done && p.last_activity.elapsed() > Duration::from_secs(HANG_SECS) {
                         let _ = p.child.kill(); // Eof follows and is handled as an abort ("hang")
+                        p.killed_for_hang = true;
                         p.last_activity = Instant::now();
                     }
                 }
@@ -521,7 +528,7 @@ fn exec_child(exe: &Path, case: &Path, log: bool) -> ChildEnd {
         let _ = std::io::Read::read_to_string(&mut BufReader::new(out), &mut s);
         let _ = tx.send(s);
     });
-    let text = match rx.recv_timeout(Duration::from_secs(HANG_SECS)) {
+    let text = match rx.recv_timeout(Duration::from_secs(EXEC_HANG_SECS)) {
         Ok(s) => s,
         Err(_) => {
             let _ = child.kill();
@@ -618,7 +625,7 @@ fn fails_like(prop: &str, cfg: &Config, ops: &[Op], target: &Target, tag: &str, 
                         None
                     }
                 }
-                (Target::Hang, ChildEnd::Hung) => Some((Vec::new(), json!({"oracle": "hang", "key": "hang", "observed": format!("no result within {} s", HANG_SECS), "expected": "returns"}))),
+                (Target::Hang, ChildEnd::Hung) => Some((Vec::new(), json!({"oracle": "hang", "key": "hang", "observed": format!("no result within {} s", EXEC_HANG_SECS), "expected": "returns"}))),
                 _ => None,
             }
         }
@@ -786,7 +793,7 @@ pub fn cmd_check(args: &Args) -> i32 {
             }
         }
         for a in &b.aborts {
-            let hang = a.what.contains("signal: 9") && !a.stderr.contains("panicked");
+            let hang = a.hang;
             let pre = death_is_precondition(&a.stderr);
             // an abort is a C01 matter always, a C19 matter when std's unsafe-precondition check fired
             let relevant = prop == "C01" || (prop == "C19" && pre);
@@ -803,6 +810,11 @@ pub fn cmd_check(args: &Args) -> i32 {
             } else {
                 total.aborted_by_panic += 1;
             }
+        }
+        if failures.iter().any(|f| matches!(f.target, Target::Hang)) {
+            println!("  a run hung; the remaining batches are skipped");
+            total.merge_json(&b.agg.to_json());
+            break;
         }
         // determinism recheck: ~1 % of the runs again, in differently laid out processes
         let rb = run_batch(&exe_for("checked"), &prop, scenario, seed, 7, 97, n, 3.min(jobs), deadline_s);
@@ -929,7 +941,7 @@ pub fn cmd_check(args: &Args) -> i32 {
                     fails_like(&p, c, o, &target, &format!("min{}", counter), fl).map(|(s, _)| s)
                 };
                 // a Miri candidate costs the better part of a minute: only the truncation step is tried
-                let budget = if matches!(f.target, Target::Hang) { 20 } else if matches!(f.target, Target::Miri { .. }) { 1 } else { 3000 };
+                let budget = if matches!(f.target, Target::Hang) { 6 } else if matches!(f.target, Target::Miri { .. }) { 1 } else { 3000 };
                 let (c2, o2, tried) = minimise::minimise(&cfg, &ops, at_op, budget, &mut test);
                 let d2 = fails_like(&prop, &c2, &o2, &f.target, "final", f.flavour).map(|(_, d)| d).unwrap_or(d);
                 (c2, o2, d2, tried)
